@@ -55,6 +55,8 @@ def rand_note(rng, families=FAMILIES, inside=True):
     n = {"kind": k, "val": 0, "oct": 0, "dur": rng.choice(DURS), "amp": 66, "tags": []}
     if d:
         n["dir"] = d
+    if k in "rl" and rng.random() < 0.3:
+        n["oct"] = rng.choice([1, -1, 2, -3])              # r.oabs(k): == compares the octave of a rest too
     if k not in "rl":
         top = 12 if d else LIBMAX[k]
         n["val"] = rng.randrange(top) if inside or rng.random() < 0.7 else rng.choice([top, top + 3, -1])
@@ -73,9 +75,11 @@ def mk_note(n):
     from musiclang import Note, Silence, Continuation
     tags = set(n.get("tags", []))
     if n["kind"] == "r":
-        return Silence(F(n["dur"]), tags=tags)
+        x = Silence(F(n["dur"]), tags=tags)
+        return x.oabs(n["oct"]) if n.get("oct") else x
     if n["kind"] == "l":
-        return Continuation(F(n["dur"]), tags=tags)
+        x = Continuation(F(n["dur"]), tags=tags)
+        return x.oabs(n["oct"]) if n.get("oct") else x
     return Note(n["kind"] + n.get("dir", ""), n["val"], n["oct"], F(n["dur"]), mode=n.get("mode"), accident=n.get("acc"),
                 amp=mlang.amp_live(n.get("amp", 66)), tags=tags)
 
@@ -128,7 +132,9 @@ class NoteText(Stream):
             try:
                 m = eval(s, lib_namespace())
                 back = read_note(m)
-            except (NameError, SyntaxError):
+            except Exception:
+                # the text of a note that is not a library symbol need not evaluate: 'bd-1' is the library's bass drum minus one
+                # (TypeError), 's-1' a NameError, ... ; for library symbols spec() demands a re-read note, so nothing is hidden
                 back = None
             return {"str": s, "back": back, "order": order}
         return mlang.guarded(f)
@@ -479,6 +485,16 @@ class Tabular(Stream):
                     for x in notes:
                         x["dur"] = rng.choice([F(1), F(1, 2), F(1, 4), F(3, 2), F(1, 8), F(3, 8), F(2), F(3, 4)])
             yield {"score": sg.equalize(sc)}
+            if _ % 25 == 0:
+                # a table of a few hundred rows, the parts of every chord in another order
+                names = ["piano__0", "violin__0", "flute__0", "cello__0", "harp__0", "oboe__0", "viola__0"][:rng.randrange(4, 8)]
+                big = []
+                for _c in range(rng.randrange(8, 14)):
+                    order = names[:]; rng.shuffle(order)
+                    big.append({"elem": rng.randrange(7), "fig": "", "tdeg": rng.randrange(12), "tmode": "M", "toct": 0, "coct": 0,
+                                "parts": [[nm, [{"kind": "s", "val": rng.randrange(7), "oct": 0, "dur": rng.choice([F(1), F(1, 2)]), "amp": 66}
+                                                for _n in range(rng.randrange(2, 5))]] for nm in order]})
+                yield {"score": sg.equalize(big)}
 
     def impl(self, case):
         def f():
@@ -487,7 +503,8 @@ class Tabular(Stream):
             s2 = Score.from_sequence(sc.to_sequence())
             a = sg.merge_rows(sg.impl_rows(sc))
             b = sg.merge_rows(sg.impl_rows(s2))
-            return {"a": sorted(map(repr, a.values())), "b": sorted(map(repr, b.values())), "dur": [F(sc.duration), F(s2.duration)]}
+            return {"a": sorted(map(repr, a.values())), "b": sorted(map(repr, b.values())), "dur": [F(sc.duration), F(s2.duration)],
+                    "parts": [[list(c.score.keys()) for c in sc.chords], [list(c.score.keys()) for c in s2.chords]]}
         return mlang.guarded(f)
 
     def spec(self, case, r):
@@ -495,6 +512,8 @@ class Tabular(Stream):
             return {"sig": "tabular-raises", "msg": str(r)}
         if [x for x in r["a"] if x != "[]"] != [x for x in r["b"] if x != "[]"]:
             return {"sig": "tabular-roundtrip-sound", "msg": f"{r['a'][:2]} vs {r['b'][:2]}"}
+        if r["parts"][0] != r["parts"][1]:
+            return {"sig": "tabular-roundtrip-part-order", "msg": f"{r['parts'][0][:2]} came back as {r['parts'][1][:2]}"}
         return None
 
     def shrink(self, case):
@@ -502,5 +521,72 @@ class Tabular(Stream):
             yield {"score": sg.equalize(s)}
 
 
+class OperationTexts(Stream):
+    """texts of objects reached through library operations rather than written directly: windows cut with integer bounds (notes with
+    int durations), chords without tonality moved by octaves, custom chords carrying a figure"""
+    name = "operation_texts"
+    checker = None
+    pair = "property oracle: Score.from_str(str(x)) == x and sounds the same, for x = score.get_score_between(int, int), Chord(e, octave=k)(...), custom chord[figure]"
+    quick, thorough = 300, 4000
+
+    def gen(self, rng, n):
+        for i in range(n):
+            kind = ["window", "toneless", "custom_figure"][i % 3]
+            if kind == "window":
+                sc = sg.equalize(sg.rand_score(rng, max_chords=3, rel=0, accs=False, rest=0.1, cont=0.1))
+                for c in sc:
+                    for nm, notes in c["parts"]:
+                        for x in notes:
+                            x["dur"] = F(rng.choice([1, 2, 3, 5, 8]))
+                    c["parts"] = [p for p in c["parts"] if not p[0].startswith("drums")] or c["parts"]
+                sc = sg.equalize(sc)
+                tot = int(sg.total_dur(sc))
+                a = rng.randrange(0, max(tot, 1)); b = rng.randrange(a + 1, tot + 2)
+                yield {"kind": kind, "score": sc, "a": a, "b": b}
+            elif kind == "toneless":
+                yield {"kind": kind, "elem": rng.randrange(7), "fig": rng.choice(["", "", "6", "7", "64"]), "coct": rng.choice([1, -1, 2, -2, 0]),
+                       "melody": [dict(rand_note(rng, families=["s", "h", "r", "l", "c"]), tags=[]) for _ in range(rng.randrange(1, 4))]}
+            else:
+                yield {"kind": kind, "notes": [[rng.choice("sh"), rng.randrange(7), rng.choice([0, 0, 1])] for _ in range(rng.randrange(2, 5))],
+                       "tdeg": rng.randrange(12), "tmode": rng.choice(MODES), "fig": rng.choice(["6", "64", "7", "65", "(sus2)", "7[add9]"]),
+                       "coct": rng.choice([0, 1, -1]), "melody": [dict(rand_note(rng, families=["s", "h", "r"]), tags=[]) for _ in range(rng.randrange(1, 3))]}
+
+    def impl(self, case):
+        def f():
+            from musiclang import Score, Chord, Note, Tonality, Melody
+            if case["kind"] == "window":
+                x = sg.mk_rscore(case["score"]).get_score_between(case["a"], case["b"])
+                if x is None:
+                    return {"none": True}
+            elif case["kind"] == "toneless":
+                x = Chord(case["elem"], extension=case["fig"], octave=case["coct"])(piano__0=Melody([mk_note(n) for n in case["melody"]])).to_score()
+            else:
+                notes = [Note(k, v, o, 1) for k, v, o in case["notes"]]
+                x = Tonality(case["tdeg"], case["tmode"], 0)(*notes)[case["fig"]].o(case["coct"])(piano__0=Melody([mk_note(n) for n in case["melody"]])).to_score()
+            text = str(x)
+            back = Score.from_str(text)
+            back = back.to_score() if not isinstance(back, Score) else back
+            desc = lambda sc: [[type(c).__name__, int(c.element), str(c.extension), None if c.tonality is None else (c.tonality.degree, c.tonality.mode, c.tonality.octave),
+                                int(c.octave), [[nm, [read_note(n) for n in m.notes]] for nm, m in c.score.items()]] for c in sc.chords]
+            da, db = desc(x), desc(back)
+            same = len(da) == len(db) and all(p[:5] == q[:5] and [u[0] for u in p[5]] == [u[0] for u in q[5]] and
+                                             all(len(u[1]) == len(w[1]) and all(same_fields(g, h) for g, h in zip(u[1], w[1])) for u, w in zip(p[5], q[5]))
+                                             for p, q in zip(da, db))
+            return {"text": text[:300], "eq": bool(back == x), "same": same}
+        return mlang.guarded(f)
+
+    def spec(self, case, r):
+        if mlang.is_exc(r):
+            return {"sig": f"operation-text-raises:{case['kind']}", "msg": str(r)}
+        if r.get("none"):
+            return None
+        if not (r["eq"] and r["same"]):
+            return {"sig": f"operation-text-roundtrip:{case['kind']}", "msg": r["text"]}
+        return None
+
+    def hist_keys(self, case, r):
+        return ["kind=" + case["kind"]]
+
+
 def streams():
-    return [NoteText(), ChordText(), RoundTrips(), CustomChords(), Tabular()]
+    return [NoteText(), ChordText(), RoundTrips(), CustomChords(), Tabular(), OperationTexts()]
